@@ -872,6 +872,20 @@ func (m *Machine) evCall(env *Env, x *Expr) CV {
 			return CV{V: v}
 		}
 		return CV{V: Sym("iface.nil", SIface)}
+	case "mapsame":
+		// the contents of the map are what they were on entry
+		need(1)
+		a := m.ev(env, args[0])
+		ref, ok := a.V.(Term)
+		if !ok || ref.Sort != "MapRef" || a.Typ == nil {
+			m.everr("mapsame of non-map")
+		}
+		if m.cur == nil || m.cur.old == nil {
+			m.everr("mapsame outside a function")
+		}
+		nm := m.mapState(env.cur, ref, a.Typ)
+		om := m.mapState(m.cur.old, ref, a.Typ)
+		return CV{V: And(Eq(nm.has, om.has), Eq(nm.get, om.get), Eq(nm.size, om.size))}
 	case "mapsize":
 		need(1)
 		a := m.ev(env, args[0])
